@@ -191,12 +191,17 @@ def _prove(conds, goal, depth=0, level=1, timeout_ms=None, seeds=(0, 7, 23), gro
                     cand = t.arg(1)
                 elif k == z3.Z3_OP_SEQ_UNIT and t.num_args() == 1:
                     cand = t.arg(0)
-                elif k == z3.Z3_OP_SELECT and t.num_args() == 2 and not z3.is_int(t.arg(1)):
-                    cand = t.arg(1)
-                if cand is not None and not z3.is_int_value(cand) and not z3.is_string_value(cand) and len(str(cand)) < 160:
-                    key = str(cand)
-                    if key not in seen_terms and len(found) < 6:
-                        found[key] = cand
+                elif k == z3.Z3_OP_SELECT and t.num_args() == 2 and (not z3.is_int(t.arg(1)) or (
+                        z3.is_app(t.arg(1)) and t.arg(1).decl().kind() in (z3.Z3_OP_SEQ_NTH, z3.Z3_OP_SELECT))):
+                    cand = t.arg(1)        # a key, or a reference-valued term (an element of a list / an entry of a dictionary)
+                cands_here = [cand] if cand is not None else []
+                if k == z3.Z3_OP_SELECT and t.num_args() == 2 and z3.is_int(t) and not z3.is_int(t.arg(1)):
+                    cands_here.append(t)        # the entry of a dictionary: an object reference
+                for cand in cands_here:
+                    if not z3.is_int_value(cand) and not z3.is_string_value(cand) and len(str(cand)) < 400:
+                        key = str(cand)
+                        if key not in seen_terms and len(found) < 8:
+                            found[key] = cand
                 for ch in t.children():
                     grab(ch, d + 1)
             for x in pool:
@@ -274,6 +279,10 @@ def solve(ob, use_cvc5=True, fast=False):
                 r = z3.unknown
         if r == z3.unknown:      # ... with the universal hypotheses kept and instantiated at the goal's skolem constants only
             r, s = _prove(list(ob.conds), ob.goal, level=0, timeout_ms=min(Z3_TIMEOUT_MS, 5_000), seeds=(0,))
+        if r == z3.unknown:      # ... from instances alone again, now also at the sequence positions, keys and object terms of the path
+            r, s = _prove(list(ob.conds), ob.goal, level=2, timeout_ms=min(Z3_TIMEOUT_MS, 3_000), seeds=(0,), ground_only=True)
+            if r == z3.sat:
+                r = z3.unknown
         if r == z3.unknown and fast:
             r, s = _prove(list(ob.conds), ob.goal, level=1, timeout_ms=min(Z3_TIMEOUT_MS, 5_000), seeds=(0,))
         elif r == z3.unknown:    # ... with neighbours, index pairs and nested instances as well, full budget
